@@ -98,6 +98,14 @@ def _boundary():
                 lines.append("l data " + ",".join(t))
                 lines.append("l run")
         out.append(("deg:%s:%s" % (mn, mx), lines))
+    # points barely outside the range: crossing fractions below 1/65536 must still be marked (code 1, not 0)
+    lines = ["l range 1 4"]
+    eps = ["131071/131072", "1048575/1048576", "4194305/1048576", "524289/131072", "1099511627775/1099511627776"]
+    for e in eps:
+        for pat in ("%s,4,2", "2,3,%s", "%s,2,%s", "2,%s,2", "%s,%s,2", "0,%s,2,%s,5"):
+            lines.append("l data " + pat.replace("%s", e))
+            lines.append("l run")
+    out.append(("tiny", lines))
     lines = ["l range null", "l data -", "l run", "l data 1", "l run", "l data 1,2,3", "l run", "l range 0 1", "l data -", "l run"]
     out.append(("null", lines))
     # fraction codes
